@@ -93,7 +93,6 @@ func (t *Dense) Norm(ord NormOrder, axes ...int) (retVal *Dense, err error) {
 	// simple case
 	if len(axes) == 0 {
 		if ord.IsUnordered() || (ord.IsFrobenius() && dims == 2) || (ord == Norm(2) && dims == 1) {
-			backup := t.AP
 			ap := makeAP(1)
 			defer ap.zero()
 
@@ -101,8 +100,10 @@ func (t *Dense) Norm(ord NormOrder, axes ...int) (retVal *Dense, err error) {
 			ap.SetShape(t.Size())
 			ap.lock()
 
-			t.AP = ap
-			if ret, err = Dot(t, t); err != nil { // returns a scalar
+			// the flattened look at the data goes into a private header: t itself may be shared with other goroutines
+			flat := t.ShallowClone()
+			flat.AP = ap
+			if ret, err = Dot(flat, flat); err != nil { // returns a scalar
 				err = errors.Wrapf(err, opFail, "Norm-0")
 				return
 			}
@@ -116,7 +117,6 @@ func (t *Dense) Norm(ord NormOrder, axes ...int) (retVal *Dense, err error) {
 			case Float32:
 				retVal.SetF32(0, math32.Sqrt(retVal.GetF32(0)))
 			}
-			t.AP = backup
 			return
 		}
 
